@@ -98,7 +98,7 @@ func ReadZipTar(r io.Reader) (*Directory, error) {
 	}
 	// the size of the zip must agree with where its end record puts the directory
 	cdOffset := int64(d.end.CDOffset)
-	if d.end.TotalCDCount == uint16Max || d.end.CDSize == uint32Max || d.end.CDOffset == uint32Max {
+	if d.end64.Signature != 0 && (d.end.TotalCDCount == uint16Max || d.end.CDSize == uint32Max || d.end.CDOffset == uint32Max) {
 		cdOffset = int64(d.end64.CDOffset)
 	}
 	if cdOffset != d.DirLoc {
